@@ -66,13 +66,19 @@ def run(ctx):
     })
     files = ["hypergraphx/generation/hy_mmsbm_sampling.py"]
     ctx.add_sites(res, ctx.sites(rules=("C-SIG", "K-ARG"), files=files))
-    check_self_attrs(ctx, res, "HyMMSBMSampler")
-    check_self_attrs(ctx, res, "HyMMSBM")
-    check_seeded_generators(ctx, res, "HyMMSBMSampler", "sample")
-    check_seeded_generators(ctx, res, "HyMMSBM", "fit")
+    with res.guard("check_self_attrsctx, res, HyMMSBMSampler"):
+        check_self_attrs(ctx, res, "HyMMSBMSampler")
+    with res.guard("check_self_attrsctx, res, HyMMSBM"):
+        check_self_attrs(ctx, res, "HyMMSBM")
+    with res.guard("check_seeded_generatorsctx, res, HyMMSBMSampler, sample"):
+        check_seeded_generators(ctx, res, "HyMMSBMSampler", "sample")
+    with res.guard("check_seeded_generatorsctx, res, HyMMSBM, fit"):
+        check_seeded_generators(ctx, res, "HyMMSBM", "fit")
     init = ctx.require("HyMMSBMSampler.__init__")
-    M.check_none_tests(ctx, res, "HyMMSBMSampler.__init__", params=("seed",))
-    M.check_none_tests(ctx, res, "HyMMSBM.__init__", params=("seed",))
+    with res.guard("M.check_none_testsctx, res, HyMMSBMSampler.__init__, paramsseed,"):
+        M.check_none_tests(ctx, res, "HyMMSBMSampler.__init__", params=("seed",))
+    with res.guard("M.check_none_testsctx, res, HyMMSBM.__init__, paramsseed,"):
+        M.check_none_tests(ctx, res, "HyMMSBM.__init__", params=("seed",))
     # the wrapped model receives the seed
     ctor = [n for n in ast.walk(init.node) if isinstance(n, ast.Call) and isinstance(n.func, ast.Name) and n.func.id == "HyMMSBM"]
     if not ctor:
@@ -110,43 +116,45 @@ def run(ctx):
             ok = arg is not None and norm(arg) in ("self._rng", "rng")
             res.check(ok, "R-FALLBACK", cf.caller.short, norm(cf.node), cf.callee.short, f"{cf.callee.short} is called without a generator: it falls back to an unseeded default_rng()", loc(cf.caller, cf.node))
     # ---- Y-WEIGHTED
-    v = ctx.view("HyMMSBMSampler.sample")
-    f = v.fi.short
-    ys = [n for n in walk_no_nested(v.fi.node) if isinstance(n, ast.Yield)]
-    if len(ys) != 1 or not isinstance(ys[0].value, ast.Call) or norm(ys[0].value.func) != "Hypergraph":
-        raise AnalysisError(f"{f}: yield idiom not recognised")
-    kw = {k.arg: k.value for k in ys[0].value.keywords}
-    res.check(isinstance(kw.get("weighted"), ast.Constant) and kw["weighted"].value is True, "Y-WEIGHTED", f, norm(ys[0]), "weighted=True", "the produced hypergraph is not weighted", loc(v.fi, ys[0]))
-    el, wl = norm(kw.get("edge_list", ast.Constant(None))), norm(kw.get("weights", ast.Constant(None)))
-    import re
+    with res.guard("Y-WEIGHTED"):
+        v = ctx.view("HyMMSBMSampler.sample")
+        f = v.fi.short
+        ys = [n for n in walk_no_nested(v.fi.node) if isinstance(n, ast.Yield)]
+        if len(ys) != 1 or not isinstance(ys[0].value, ast.Call) or norm(ys[0].value.func) != "Hypergraph":
+            raise AnalysisError(f"{f}: yield idiom not recognised")
+        kw = {k.arg: k.value for k in ys[0].value.keywords}
+        res.check(isinstance(kw.get("weighted"), ast.Constant) and kw["weighted"].value is True, "Y-WEIGHTED", f, norm(ys[0]), "weighted=True", "the produced hypergraph is not weighted", loc(v.fi, ys[0]))
+        el, wl = norm(kw.get("edge_list", ast.Constant(None))), norm(kw.get("weights", ast.Constant(None)))
+        import re
 
-    m1, m2 = re.fullmatch(r"list\((\w+)\)", el), re.fullmatch(r"list\((\w+)\.values\(\)\)", wl)
-    res.check(bool(m1 and m2 and m1.group(1) == m2.group(1)), "Y-WEIGHTED", f, norm(ys[0]), "same-dict", "hyperedges and weights of the produced hypergraph do not come from the same merged dict (they would be out of step)", loc(v.fi, ys[0]))
-    merged = m1.group(1) if m1 else None
-    augs = [n for n in walk_no_nested(v.fi.node) if isinstance(n, ast.AugAssign) and isinstance(n.target, ast.Subscript) and norm(n.target.value) == merged]
-    res.check(bool(augs) and all(isinstance(a.op, ast.Add) for a in augs), "Y-WEIGHTED", f, norm(augs[0]) if augs else f"{merged}[edge] += w", "merge", "duplicate hyperedges are not merged by summing their weights", loc(v.fi, ys[0]))
-    for a in augs:
-        lp = v.enclosing(a, (ast.For,))
-        ok = lp is not None and norm(lp.iter) == "zip(hye_list, weights)"
-        res.check(ok, "Y-WEIGHTED", f, norm(lp.iter) if lp is not None else norm(a), "zip", "the merge does not pair each hyperedge with its own weight", loc(v.fi, a))
-    nz = [n for n in walk_no_nested(v.fi.node) if isinstance(n, ast.Assign) and isinstance(n.targets[0], ast.Name) and "np.where" in norm(n.value) and "> 0" in norm(n.value)]
-    res.check(len(nz) == 1, "Y-WEIGHTED", f, norm(nz[0]) if nz else "nonzero = np.where(weights > 0)[0]", "filter", "zero weights are not filtered out", loc(v.fi, ys[0]))
-    if nz:
-        ix = nz[0].targets[0].id
-        wsel = [n for n in walk_no_nested(v.fi.node) if isinstance(n, ast.Assign) and norm(n.targets[0]) == "weights" and norm(n.value) == f"weights[{ix}]"]
-        hsel = [n for n in walk_no_nested(v.fi.node) if isinstance(n, ast.Assign) and norm(n.targets[0]) == "hye_list" and isinstance(n.value, ast.ListComp) and norm(n.value.generators[0].iter) == ix and norm(n.value.elt) == f"hye_list[{norm(n.value.generators[0].target)}]"]
-        res.check(bool(wsel) and bool(hsel), "Y-WEIGHTED", f, f"weights[{ix}] / [hye_list[idx] for idx in {ix}]", "same-index-set", "weights and hyperedges are filtered with different index sets: weights end up on the wrong hyperedges", loc(v.fi, nz[0]))
-        if wsel and hsel:
-            yid = v.cfg_id(ys[0])
-            res.check(v.cfg.dominates(v.cfg_id(wsel[0]), yid) and v.cfg.dominates(v.cfg_id(hsel[0]), yid), "Y-WEIGHTED", f, norm(wsel[0]), "before-yield", "the zero-weight filter does not precede the yield on every path", loc(v.fi, wsel[0]))
+        m1, m2 = re.fullmatch(r"list\((\w+)\)", el), re.fullmatch(r"list\((\w+)\.values\(\)\)", wl)
+        res.check(bool(m1 and m2 and m1.group(1) == m2.group(1)), "Y-WEIGHTED", f, norm(ys[0]), "same-dict", "hyperedges and weights of the produced hypergraph do not come from the same merged dict (they would be out of step)", loc(v.fi, ys[0]))
+        merged = m1.group(1) if m1 else None
+        augs = [n for n in walk_no_nested(v.fi.node) if isinstance(n, ast.AugAssign) and isinstance(n.target, ast.Subscript) and norm(n.target.value) == merged]
+        res.check(bool(augs) and all(isinstance(a.op, ast.Add) for a in augs), "Y-WEIGHTED", f, norm(augs[0]) if augs else f"{merged}[edge] += w", "merge", "duplicate hyperedges are not merged by summing their weights", loc(v.fi, ys[0]))
+        for a in augs:
+            lp = v.enclosing(a, (ast.For,))
+            ok = lp is not None and norm(lp.iter) == "zip(hye_list, weights)"
+            res.check(ok, "Y-WEIGHTED", f, norm(lp.iter) if lp is not None else norm(a), "zip", "the merge does not pair each hyperedge with its own weight", loc(v.fi, a))
+        nz = [n for n in walk_no_nested(v.fi.node) if isinstance(n, ast.Assign) and isinstance(n.targets[0], ast.Name) and "np.where" in norm(n.value) and "> 0" in norm(n.value)]
+        res.check(len(nz) == 1, "Y-WEIGHTED", f, norm(nz[0]) if nz else "nonzero = np.where(weights > 0)[0]", "filter", "zero weights are not filtered out", loc(v.fi, ys[0]))
+        if nz:
+            ix = nz[0].targets[0].id
+            wsel = [n for n in walk_no_nested(v.fi.node) if isinstance(n, ast.Assign) and norm(n.targets[0]) == "weights" and norm(n.value) == f"weights[{ix}]"]
+            hsel = [n for n in walk_no_nested(v.fi.node) if isinstance(n, ast.Assign) and norm(n.targets[0]) == "hye_list" and isinstance(n.value, ast.ListComp) and norm(n.value.generators[0].iter) == ix and norm(n.value.elt) == f"hye_list[{norm(n.value.generators[0].target)}]"]
+            res.check(bool(wsel) and bool(hsel), "Y-WEIGHTED", f, f"weights[{ix}] / [hye_list[idx] for idx in {ix}]", "same-index-set", "weights and hyperedges are filtered with different index sets: weights end up on the wrong hyperedges", loc(v.fi, nz[0]))
+            if wsel and hsel:
+                yid = v.cfg_id(ys[0])
+                res.check(v.cfg.dominates(v.cfg_id(wsel[0]), yid) and v.cfg.dominates(v.cfg_id(hsel[0]), yid), "Y-WEIGHTED", f, norm(wsel[0]), "before-yield", "the zero-weight filter does not precede the yield on every path", loc(v.fi, wsel[0]))
     # ---- K-IDX mapping in / out
-    tr = [n for n in walk_no_nested(v.fi.node) if isinstance(n, ast.Attribute) and n.attr == "transform" and norm(n.value) == "mapping"]
-    inv = [n for n in walk_no_nested(v.fi.node) if isinstance(n, ast.Attribute) and n.attr == "inverse_transform" and norm(n.value) == "mapping"]
-    res.check(bool(tr) and bool(inv), "K-IDX", f, "mapping.transform / mapping.inverse_transform", "both-directions", "node labels are mapped to indices but not back (or vice versa)", loc(v.fi, v.fi.node))
-    for n in inv:
-        ifs = v.enclosing_all(n, (ast.If,))
-        res.check(any(norm(i.test) in ("initial_hyg", "initial_hyg is not None") for i in ifs), "K-IDX", f, norm(n), "condition", "the inverse mapping is not applied exactly when an initial hypergraph was given", loc(v.fi, n))
-    mdef = [n for n in walk_no_nested(v.fi.node) if isinstance(n, ast.Assign) and norm(n.targets[0]) == "mapping"]
-    res.check(bool(mdef) and all(norm(x.value) == "initial_hyg.get_mapping()" for x in mdef), "K-IDX", f, norm(mdef[0]) if mdef else "mapping = initial_hyg.get_mapping()", "mapping-of-initial", "the mapping is not that of the initial hypergraph", loc(v.fi, v.fi.node))
+    with res.guard("K-IDX mapping in / out"):
+        tr = [n for n in walk_no_nested(v.fi.node) if isinstance(n, ast.Attribute) and n.attr == "transform" and norm(n.value) == "mapping"]
+        inv = [n for n in walk_no_nested(v.fi.node) if isinstance(n, ast.Attribute) and n.attr == "inverse_transform" and norm(n.value) == "mapping"]
+        res.check(bool(tr) and bool(inv), "K-IDX", f, "mapping.transform / mapping.inverse_transform", "both-directions", "node labels are mapped to indices but not back (or vice versa)", loc(v.fi, v.fi.node))
+        for n in inv:
+            ifs = v.enclosing_all(n, (ast.If,))
+            res.check(any(norm(i.test) in ("initial_hyg", "initial_hyg is not None") for i in ifs), "K-IDX", f, norm(n), "condition", "the inverse mapping is not applied exactly when an initial hypergraph was given", loc(v.fi, n))
+        mdef = [n for n in walk_no_nested(v.fi.node) if isinstance(n, ast.Assign) and norm(n.targets[0]) == "mapping"]
+        res.check(bool(mdef) and all(norm(x.value) == "initial_hyg.get_mapping()" for x in mdef), "K-IDX", f, norm(mdef[0]) if mdef else "mapping = initial_hyg.get_mapping()", "mapping-of-initial", "the mapping is not that of the initial hypergraph", loc(v.fi, v.fi.node))
     res.assumptions += ["numpy Generators constructed from equal seeds produce equal streams (library)", "degree / size conditioning and chain invariants are not decided (set algebra + asserts)"]
     return res
